@@ -155,6 +155,38 @@ func buildScenarios(thorough bool) []scenario {
 			}
 		}
 
+		// F3b failing rename batch, with and without a transaction: valid entries followed
+		// by a system channel (made later, so its key sorts last) whose rename is refused.
+		for _, first := range []string{"data-fixed", "virtual", "index"} {
+			for _, tx := range []bool{true, false} {
+				for _, remote := range []bool{false, true} {
+					if remote && n == 1 {
+						continue
+					}
+					via := nodes[0]
+					l := via
+					if remote {
+						l = nodes[len(nodes)-1]
+					}
+					sys := mk("virtual", "sys", l)
+					sys.Internal = true
+					firstName := map[string]string{"data-fixed": "d1", "virtual": "v", "index": "ix"}[first]
+					second := "v"
+					if first == "virtual" {
+						second = "d1"
+					}
+					sc := scenario{name: fmt.Sprintf("failing-rename/%s/tx%v/remote%v/n%d", first, tx, remote, n), nodes: n, steps: []step{
+						{Op: "create", Via: via, Tx: true, Chans: []reqChan{mk("index", "ix", l)}},
+						{Op: "create", Via: via, Tx: true, Chans: []reqChan{mk("data-fixed", "d1", l), mk("virtual", "v", l)}},
+						{Op: "create", Via: via, Tx: true, Chans: []reqChan{sys}},
+						{Op: "rename", Via: via, Tx: tx, KeyNames: []string{firstName, second, "sys"}, Names: []string{"r1", "r2", "r3"}},
+						{Op: "create", Via: via, Tx: true, Chans: []reqChan{mk("virtual", firstName, l)}},
+					}}
+					out = append(out, sc)
+				}
+			}
+		}
+
 		// F4 overwrite-create over an existing channel of the same name.
 		for _, oldK := range []string{"index", "data-fixed", "virtual", "free"} {
 			for _, oldL := range leases {
